@@ -1383,9 +1383,13 @@ func (m *Manager) AddPoolTransactions(txns []types.Transaction) (known bool, err
 		return known, err
 	}
 
+	// validate all new transactions against the pool before adding any of
+	// them, so that a conflict rejects the entire set
+	var added []types.Transaction
+	seen := make(map[types.TransactionID]bool)
 	for _, txn := range txns {
 		txid := txn.ID()
-		if _, ok := m.txpool.indices[txid]; ok {
+		if _, ok := m.txpool.indices[txid]; ok || seen[txid] {
 			continue // skip transactions already in the pool
 		}
 		ts := m.store.SupplementTipTransaction(txn)
@@ -1394,7 +1398,11 @@ func (m *Manager) AddPoolTransactions(txns []types.Transaction) (known bool, err
 			return false, fmt.Errorf("transaction %v conflicts with pool: %w", txid, err)
 		}
 		m.txpool.ms.ApplyTransaction(txn, ts)
-		m.txpool.indices[txid] = len(m.txpool.txns)
+		seen[txid] = true
+		added = append(added, txn)
+	}
+	for _, txn := range added {
+		m.txpool.indices[txn.ID()] = len(m.txpool.txns)
 		m.txpool.txns = append(m.txpool.txns, txn)
 		m.txpool.weight += m.tipState.TransactionWeight(txn)
 	}
@@ -1463,9 +1471,13 @@ func (m *Manager) AddV2PoolTransactions(basis types.ChainIndex, txns []types.V2T
 		return known, err
 	}
 
+	// validate all new transactions against the pool before adding any of
+	// them, so that a conflict rejects the entire set
+	var added []types.V2Transaction
+	seen := make(map[types.TransactionID]bool)
 	for _, txn := range txns {
 		txid := txn.ID()
-		if _, ok := m.txpool.indices[txid]; ok {
+		if _, ok := m.txpool.indices[txid]; ok || seen[txid] {
 			continue // skip transactions already in the pool
 		}
 		if err := consensus.ValidateV2Transaction(m.txpool.ms, txn); err != nil {
@@ -1473,7 +1485,11 @@ func (m *Manager) AddV2PoolTransactions(basis types.ChainIndex, txns []types.V2T
 			return false, fmt.Errorf("transaction %v conflicts with pool: %w", txid, err)
 		}
 		m.txpool.ms.ApplyV2Transaction(txn)
-		m.txpool.indices[txid] = len(m.txpool.v2txns)
+		seen[txid] = true
+		added = append(added, txn)
+	}
+	for _, txn := range added {
+		m.txpool.indices[txn.ID()] = len(m.txpool.v2txns)
 		m.txpool.v2txns = append(m.txpool.v2txns, txn)
 		m.txpool.weight += m.tipState.V2TransactionWeight(txn)
 	}
